@@ -33,8 +33,8 @@ class Scen:
         Bs, Bo = self.B
         Cs, Co = self.C if self.C else (1.0, (50.0, 50.0, 50.0))
         return [self.cut_adh, self.cut_rep, self.lmin] + list(self.T) + list(p) + [Bs] + list(Bo) + [Cs] + list(Co)
-    def iin(self, ref=0):
-        return [self.clsA, self.clsB, 1 if self.C else 0, ref]
+    def iin(self, ref=0, nruns=1):
+        return [self.clsA, self.clsB, 1 if self.C else 0, ref, nruns]
     def pad(self):
         return max(self.cut_adh, self.cut_rep)
 
@@ -85,7 +85,9 @@ def outside_box(pos, fnodes, pad):
         cl = S.bor(cl, S.bor(below, above))
     return cl
 
-def run_box(cm, sc, lo, hi, tmo_ms, max_paths):
+MARK = 'h_c06_marker'
+
+def run_box(cm, sc, lo, hi, tmo_ms, max_paths, nruns=1):
     t0 = time.time()
     ir = build.build_ir(['h_broad.cpp'], contact=cm)
     z = SV.Z3Ctx()
@@ -98,9 +100,12 @@ def run_box(cm, sc, lo, hi, tmo_ms, max_paths):
             it.events.append(('aabb', a[1] // 6, pos))
         return res
     def setup(it): it.strict_undef = False; it.poly_mode = True
-    sess = api.Session(ir, mode='real', overrides={AABB: aabb}, setup=setup)
-    ctl, res = sess.explore(ENTRY, sc.din(P), sc.iin(0), assumptions=box, zctx=z, max_paths=max_paths, branch_timeout_ms=tmo_ms)
-    name = 'contact model %d/%s/p in [%s]' % (cm, sc.name, ' x '.join('%.3g..%.3g' % (lo[k], hi[k]) for k in range(3)))
+    def marker(it, a):
+        it.events.append(('run', a[0]))
+        return None
+    sess = api.Session(ir, mode='real', overrides={AABB: aabb, MARK: marker}, setup=setup)
+    ctl, res = sess.explore(ENTRY, sc.din(P), sc.iin(0, nruns), assumptions=box, zctx=z, max_paths=max_paths, branch_timeout_ms=tmo_ms)
+    name = 'contact model %d/%s%s/p in [%s]' % (cm, sc.name, (' (run %d of the same model object)' % nruns) if nruns > 1 else '', ' x '.join('%.3g..%.3g' % (lo[k], hi[k]) for k in range(3)))
     out = {'name': name, 'obs': [], 'cands': [], 'fail': [], 'paths': ctl.paths_done, 'functions': sorted(sess.functions_called), 'witness': 0, 'pairs_passed': 0}
     if not ctl.exhausted: out['fail'].append('%s: path budget exhausted (%d)' % (name, ctl.paths_done))
     ncell = 3 if sc.C else 2
@@ -112,9 +117,12 @@ def run_box(cm, sc, lo, hi, tmo_ms, max_paths):
         if st != 'ok':
             out['fail'].append('%s: path ended with %s %r' % (name, st, getattr(r, 'error', None))); continue
         key = 'path ' + ''.join('T' if d.taken else 'F' for d in tr if not d.forced)[-28:]
-        passed = set()
+        passed = set(); handed = []
+        last_run = max([e[1] for e in r.events if e[0] == 'run'] or [0])
+        cur_run = 0
         for e in r.events:
-            if e[0] != 'aabb': continue
+            if e[0] == 'run': cur_run = e[1]; continue
+            if e[0] != 'aabb' or cur_run != last_run: continue
             gf, pos = e[1], e[2]
             # identify the node by its exact position
             who = None
@@ -137,7 +145,12 @@ def run_box(cm, sc, lo, hi, tmo_ms, max_paths):
                 if who: break
             if who is None:
                 out['fail'].append('%s: a recorded node position could not be identified' % name); continue
-            passed.add((who, (gf // 4, gf % 4)))
+            passed.add((who, (gf // 4, gf % 4))); handed.append((who, (gf // 4, gf % 4)))
+        dup = sorted({x for x in handed if handed.count(x) > 1})
+        out['obs'].append((name + '/' + key + '/no pair is handed to the contact rules more than once in one run (%d hand-overs)' % len(handed), 'proved' if not dup else 'cand-dup', True, 0.0, None))
+        if dup:
+            stw, m_ = SV.satisfiable(z, pc, tmo_ms)
+            out['cands'].append({'node': dup[0][0], 'face': dup[0][1], 'model': {k: float(Fraction(v)) for k, v in (m_ or {}).items()}, 'box': (lo, hi), 'ob': name + '/' + key + '/no pair is handed to the contact rules more than once in one run', 'dup': True, 'nruns': nruns})
         out['pairs_passed'] += len(passed)
         if any(w == (0, 0) for (w, f) in passed): out['witness'] += 1
         # every (node, face of another cell) that was not handed over must be outside the padded box
@@ -170,9 +183,9 @@ def run_box(cm, sc, lo, hi, tmo_ms, max_paths):
     out['queries'] = z.queries; out['solver_s'] = z.solver_time; out['wall'] = time.time() - t0
     return out
 
-def native_loss(native, sc, p):
-    """real run() against the one-voxel-per-axis reference on the same tissue; returns description of the difference or None"""
-    q = native.call(ENTRY, sc.din(p), sc.iin(1))
+def native_loss(native, sc, p, nruns=1):
+    """real run() (the last of nruns runs of one model object) against a fresh one-voxel-per-axis reference on the same tissue; returns description of the difference or None"""
+    q = native.call(ENTRY, sc.din(p), sc.iin(1, nruns))
     if q.get('status') != 0: return 'native run ended with %r' % (q.get('status'),)
     nd = len(q['d']) // 2; ni = len(q['i']) // 2
     if q['i'][:ni] != q['i'][ni:]: return 'couplings differ between the real grid and the single-voxel reference'
@@ -215,22 +228,30 @@ def main(chk):
             if quick and cm != 1 and si == 1: continue
             for (lo, hi) in split_box(sc.lo, sc.hi, nsplit):
                 jobs.append((cm, si, lo, hi))
+    # the solver keeps one contact model object for the whole simulation: second run of the same object (grid state carried over)
+    for cm in ((1,) if quick else (0, 1, 2)):
+        for (lo, hi) in split_box(SC[0].lo, SC[0].hi, nsplit):
+            jobs.append((cm, 0, lo, hi, 2))
     chk.log('%d explorations' % len(jobs))
-    outs = par.pmap(lambda i: run_box(jobs[i][0], SC[jobs[i][1]], jobs[i][2], jobs[i][3], 10000 if quick else 30000, 1500 if quick else 6000), len(jobs), procs=15)
-    for (cm, si, lo, hi), o in zip(jobs, outs):
+    outs = par.pmap(lambda i: run_box(jobs[i][0], SC[jobs[i][1]], jobs[i][2], jobs[i][3], 10000 if quick else 30000, 1500 if quick else 6000, jobs[i][4] if len(jobs[i]) > 4 else 1), len(jobs), procs=15)
+    for job_, o in zip(jobs, outs):
+        cm, si, lo, hi = job_[:4]
         chk.paths += o['paths']; chk.queries += o['queries']; chk.solver_s += o['solver_s']; chk.witnesses += o['witness']
         chk.functions |= set(o['functions'])
         for m in o['fail']: chk.fail_closed.append(m)
-        for (name, status, core, t, detail) in o['obs']: chk.ob(name, status, core, t, detail)
+        for (name, status, core, t, detail) in o['obs']:
+            if status != 'cand-dup': chk.ob(name, status, core, t, detail)
         if len(chk.samples) < 10: chk.samples.append({'exploration': o['name'], 'paths': o['paths'], 'pairs handed over (sum over paths)': o['pairs_passed'], 'seconds': round(o['wall'], 1)})
         for cand in o['cands']:
             sc = SC[si]
             p = [cand['model'].get(v, (lo[k] + hi[k]) / 2) for k, v in enumerate(PV)]
-            diff = native_loss(natives[cm], sc, p)
+            diff = native_loss(natives[cm], sc, p, cand.get('nruns', 1))
             rep = {'contact model': cm, 'scenario': sc.name, 'p': p, 'withheld pair': {'node (cell, index)': cand['node'], 'face (cell, index)': cand['face']}, 'native': diff, 'din': sc.din(p), 'iin': sc.iin(1),
                    'how': 'harness h_c06_broad (/verif/harness/h_broad.cpp) built with contact model %d: forces of run() against the single-voxel reference' % cm}
             chk.ob(cand['ob'], 'violated' if diff else 'unknown', False, 0.0, {'p': p, 'native': diff})
-            if diff:
+            if diff and cand.get('dup'):
+                chk.violation('C06/pair handed over more than once in one run/contact model %d' % cm, 'node %r and face %r are handed to the contact rules several times in run %d of the same model object at p=%r [%s]; native: %s' % (cand['node'], cand['face'], cand.get('nruns', 1), p, sc.name, diff), rep)
+            elif diff:
                 chk.violation('C06/pair withheld inside the cut-off box/contact model %d' % cm, 'node %r and face %r are not handed to the contact rules although p=%r lies inside the padded box [%s]; native: %s' % (cand['node'], cand['face'], p, sc.name, diff), rep)
             else:
                 chk.note('withheld pair %r/%r at p=%r inside the padded box but native forces agree with the reference (pair beyond the true cut-off): not a violation' % (cand['node'], cand['face'], p))
